@@ -1208,7 +1208,13 @@ def rule_elide_lock(toks, au, field, param):
                             m += 5
                             continue
                         if tt.kind == "id" and tt.text == G and not (new and is_p(new[-1], ".")):
-                            new.append(Tok("id", param, tt.ws))
+                            # `&mut G` (the guard lent to a callee) -> `param` (already a &mut; implicit reborrow)
+                            if len(new) >= 2 and is_id(new[-1], "mut") and is_p(new[-2], "&"):
+                                ws_ = new[-2].ws
+                                del new[-2:]
+                                new.append(Tok("id", param, ws_))
+                            else:
+                                new.append(Tok("id", param, tt.ws))
                             m += 1
                             continue
                         new.append(tt)
